@@ -77,6 +77,7 @@ type Result struct {
 	Preemptions int        // switches that were not forced by blocking / task end
 	Deadlock    bool
 	StepCap     bool
+	DecOverflow bool // more context switches than the decision buffer records: Decisions is truncated (the run itself is complete)
 	Hash        uint64 // FNV-1a of the event log
 	FaultsFired map[string]int
 	MapPerms    int // non-identity permutations applied on >=2 keys
@@ -779,7 +780,7 @@ func (s *sim) reset(cfg Config, n int) {
 func (s *sim) result() Result {
 	r := Result{
 		Steps: s.steps, Decisions: append([]Decision(nil), s.dec...), Preemptions: s.preempt,
-		Deadlock: s.deadlock, StepCap: s.stepcap || s.decOverflow, Hash: s.hash,
+		Deadlock: s.deadlock, StepCap: s.stepcap, DecOverflow: s.decOverflow, Hash: s.hash,
 		FaultsFired: map[string]int{"gc": s.firedGC, "clock": s.firedClock, "knob": s.firedKnob},
 		MapPerms: s.mapPerms, MapIters: s.mapIters,
 		Overlap: map[string]int{}, LockSpins: s.lockSpins, SitesSwitched: map[uint32]int{},
